@@ -71,9 +71,7 @@ def outcome(thunk, vf, dispatch_names=()):
     vf.clear()
     try:
         r = thunk()
-    except RecursionError:
-        raise
-    except BaseException as e:  # noqa: BLE001
+    except BaseException as e:  # noqa: BLE001  (a RecursionError is an outcome too: generated bodies bound their own recursion)
         if isinstance(e, (KeyboardInterrupt, SystemExit)):
             raise
         k = classify_exception(e, vf, dispatch_names)
